@@ -105,7 +105,10 @@ class Mapper(HoloPyObject):
         self.parameter_names = []
 
     def convert_to_map(self, parameter, name=''):
-        if isinstance(parameter, (list, tuple, np.ndarray)):
+        if isinstance(parameter, np.ndarray) and parameter.ndim == 0:
+            # a 0-d array is a number (or a prior), not a sequence
+            mapped = self.convert_to_map(parameter[()], name)
+        elif isinstance(parameter, (list, tuple, np.ndarray)):
             mapped = self.iterate_mapping(name + '.', enumerate(parameter))
         elif isinstance(parameter, dict):
             mapped = self.map_dictionary(parameter, name)
